@@ -5,6 +5,7 @@ use crate::runner::{Meta, Session};
 
 pub mod builder;
 pub mod envelope;
+pub mod inscriptions;
 pub mod pure_ordinals;
 pub mod runestone;
 pub mod sats;
@@ -16,6 +17,11 @@ pub fn dispatch(id: &str) -> Option<fn(&mut Session) -> Meta> {
   Some(match id {
     "C01" => sats::c01,
     "C02" => sats::c02,
+    "C03" => inscriptions::c03,
+    "C04" => inscriptions::c04,
+    "C05" => inscriptions::c05,
+    "C06" => inscriptions::c06,
+    "C07" => inscriptions::c07,
     "C12" => sats::c12,
     "C17" => sats::c17,
     "C20" => builder::c20,
